@@ -148,8 +148,15 @@ impl<'a> InstanceInformation {
 impl std::hash::Hash for InstanceInformation {
     fn hash<H: std::hash::Hasher>(&self, state: &mut H) {
         self.instance_name.hash(state);
-        self.ip_addresses.iter().for_each(|v| v.hash(state));
-        self.ports.iter().for_each(|v| v.hash(state));
+
+        // equal sets may iterate in different orders: hash their members in sorted order
+        let mut ip_addresses: Vec<_> = self.ip_addresses.iter().collect();
+        ip_addresses.sort();
+        ip_addresses.iter().for_each(|v| v.hash(state));
+
+        let mut ports: Vec<_> = self.ports.iter().collect();
+        ports.sort();
+        ports.iter().for_each(|v| v.hash(state));
     }
 }
 
